@@ -162,7 +162,7 @@ int sm9_z256_rand_range(sm9_z256_t r, const sm9_z256_t range)
 		}
 		max_tries--;
 
-	} while (sm9_z256_cmp(r, range) >= 0);
+	} while (sm9_z256_cmp(r, range) >= 0 || sm9_z256_is_zero(r)); // [1, range - 1]: a zero nonce or master key must never be used
 
 	return 1;
 }
